@@ -64,7 +64,9 @@ PROPS = {
                 "query's true merged count -1/0/+1, at the per-block sum (-1/0), far away or disabled + 1-2 clients issuing 1-3 Series calls from a pool of "
                 "1-3 queries. Oracle per call: success => series and chunk counts of the response within the limits and the answer complete (equal to the "
                 "reference); model's merged count above a limit => the call fails with gRPC ResourceExhausted; between per-block sum and merged count both "
-                "outcomes are accepted. distinct = distinct event-log hash; non-trivial = the first query matches series and a limit is configured.",
+                "outcomes are accepted. One run in twelve is unscheduled instead: 2-6 really parallel goroutines share one Limiter and together ask for "
+                "one unit more than the limit (one long burst, then 4000 rounds at the boundary); at least one reservation must be refused. "
+                "distinct = distinct event-log hash; non-trivial = the first query matches series and a limit is configured.",
         "components": GW_COMPONENTS,
         "assumptions": _ASSUME_GW + ["the bytes limiter is disabled (the model cannot predict fetched bytes)",
                                      "queries for which every matcher names an external label of some block are avoided (C10's finding is not re-reported here)"],
@@ -82,7 +84,9 @@ PROPS = {
         "thorough": {"runs": 30000, "seconds": 780},
         "rule": "one evaluation = one dataset (1-3 blocks, external label sets colliding with stored labels) + one gateway configuration + 1-2 gateway clients "
                 "(1-3 Series calls each, SkipChunks on/off, WithoutReplicaLabels none or 1-2 names among external, stored and absent names) + one TSDBStore "
-                "client over the first block; for every label (name,value) on every returned series: name in LabelNames, value in LabelValues(name). "
+                "client over the first block; for every label (name,value) on every returned series: name in LabelNames, value in LabelValues(name); a third of the runs is a directed cache history (index cache, lazily expanded postings): "
+                "LabelValues for every label name and LabelNames are first asked over a narrow range in which a matching series has no chunk, then Series and "
+                "the label calls over everything. "
                 "distinct = distinct event-log hash; non-trivial = at least one query has a non-empty reference answer.",
         "components": {"real": GW_COMPONENTS["real"] + TSDB_COMPONENTS["real"], "stub": GW_COMPONENTS["stub"] + TSDB_COMPONENTS["stub"]},
         "assumptions": _ASSUME_GW + ["ProxyStore in front of the stores is covered by the RC proxy world, not here",
@@ -103,7 +107,10 @@ PROPS = {
                 "selectors on external label names (agreeing, contradicting, regex, negated, empty) + WithoutReplicaLabels lists. Oracle per answer: "
                 "(a) each series (each frame) carries all external labels, with the external value, of some block set not contradicted by the selectors, "
                 "minus dropped replica labels; (b) no label listed in WithoutReplicaLabels is present; (c) if the selectors contradict every external label "
-                "set nothing is returned. distinct = distinct event-log hash; non-trivial = every evaluation (all issue external-label-relevant requests).",
+                "set nothing is returned. Besides the gateway and the TSDBStore (whose external labels are reconfigured 0-2 times between rounds of the same "
+                "requests) a PrometheusStore - the sidecar - reads the same block through Prometheus's own remote-read handler (streamed chunks with "
+                "1/64/2^20-byte frames, or sampled only); its external labels are constant, reconfigured between rounds, or change while a request is in "
+                "flight (then the answer must fit the old or the new labels throughout). distinct = distinct event-log hash; non-trivial = every evaluation (all issue external-label-relevant requests).",
         "components": {"real": GW_COMPONENTS["real"] + TSDB_COMPONENTS["real"], "stub": GW_COMPONENTS["stub"] + TSDB_COMPONENTS["stub"]},
         "assumptions": _ASSUME_GW + ["(*TSDBStore).VerifSetMaxBytesPerFrameGW (verif-tagged shim) lowers the frame size",
                                      "Prometheus sidecar store (pkg/store/prometheus.go) is not instantiated: it needs an HTTP remote-read server"],
